@@ -153,8 +153,20 @@ def search_order(ctx):
     lp = loops[0]
     ctx.check(src(lp.iter) == "self.directories", "iter", db.where(lp), "directories iterated as %s, not in configured order" % src(lp.iter), "for ... in self.directories")
     rets = [n for n in ast.walk(lp) if isinstance(n, ast.Return)]
-    ok = any(isinstance(r.value, ast.Call) and dotted(r.value.func) == "self._load" for r in rets)
+    brks = [n for n in ast.walk(lp) if isinstance(n, ast.Break)]
+    ok = any(isinstance(r.value, ast.Call) and dotted(r.value.func) == "self._load" for r in rets) or bool(brks)
     ctx.check(ok and not any(isinstance(n, (ast.Continue,)) for n in ast.walk(lp)), "first-hit", db.where(lp), "loop does not return at the first existing file", "returns self._load(...) at the first hit")
+    # the search ends only at a candidate that is a *file*: something else of that name (a directory) is passed over
+    from .common import guards_of, resolve_deep
+    def _file_test(t):
+        t = resolve_deep(gt, t)
+        return isinstance(t, ast.Call) and ((dotted(t.func) or "").endswith("path.isfile") or (dotted(t.func) or "").endswith("S_ISREG"))
+    for x in rets + brks:
+        gs = guards_of(x, lp, fn=gt)
+        under = any(tv and (("isfile(" in tt) or ("S_ISREG(" in tt)) for tt, tv in gs)
+        ctx.check(under, "ends-at-file:%s" % type(x).__name__, db.where(x),
+                  "the search over the directories ends (%s) at a candidate that merely exists (conditions: %s): a directory of that name in an earlier root hides the template file in a later one" % (type(x).__name__.lower(), [tt for tt, tv in gs][:3]),
+                  "the search ends only where the candidate is a regular file")
     # after exhaustion raise TopLevelLookupException
     tail = lp.orelse or []
     if not tail:
